@@ -136,6 +136,14 @@ Theorem get_errno_after_direct_call : forall r m,
 Proof. exact get_after_direct_api. Qed.
 Print Assumptions get_errno_after_direct_call.
 
+(* the two accessor functions as they are written in lib/include/error.h and lib/x86_64/error.c today (translated on
+   every run, Gen/GenStrerror.v) are the functions the theorems above are about *)
+Theorem errno_accessors_match_source : forall b e m,
+  src_get_errno b (e_field m) (e_glob m) = imb_get_errno b m /\
+  src_set_errno b e (e_field m) (e_glob m) = (e_field (imb_set_errno b e m), e_glob (imb_set_errno b e m)).
+Proof. intros b e m; split; [exact (src_get_errno_is_model b m) | exact (src_set_errno_is_model b e m)]. Qed.
+Print Assumptions errno_accessors_match_source.
+
 (* ---- imb_get_strerror ---- *)
 
 (* for ALL z : Z a string is returned; the `default: return strerror(errnum)` branch is libc, an
